@@ -120,9 +120,11 @@ def run(ctx):
         cov["source_wait_construct"] = variant
         selfcheck, _ = T.detect_selfcheck(exe, ctx.scratch)
         cov["source_worker_tests_command_timeout_itself"] = selfcheck
-        ctx.log("constructs of the tree (by behaviour): wait-for-room = %s, worker tests the command timeout itself = %s"
-                % (variant, selfcheck))
-        variant = (variant, selfcheck)
+        stopwdog = T.detect_stopwdog(exe, ctx.scratch)
+        cov["source_dsh_stops_watchdog_before_return"] = stopwdog
+        ctx.log("constructs of the tree (by behaviour): wait-for-room = %s, worker tests the command timeout itself = %s, "
+                "dsh() stops the watchdog before it returns = %s" % (variant, selfcheck, stopwdog))
+        variant = (variant, selfcheck, stopwdog)
         if ctx.replay:
             rp = json.load(open(ctx.replay))
             case = (rp.get("case") or {}).get("case")
@@ -136,7 +138,7 @@ def run(ctx):
                     ctx.log("replay: %s %s" % (sig, what))
                     ctx.offender(sig, what, T.pack(res))
                 if case.get("yield") == "fan" and res["crash"] is None:
-                    bad = T.accept_all(ctx, [T.project(res, variant[0], variant[1])])[0]
+                    bad = T.accept_all(ctx, [T.project(res, *variant)])[0]
                     if bad:
                         ctx.disagreement("Timed LTS vs dsh.c", "line %d `%s`: %s" % bad, T.pack(res))
                 cov["evaluations"] = 1
@@ -161,7 +163,8 @@ def run(ctx):
                      "delays after the connect; rcmd_destroy returns promptly (a teardown that blocks forever is a "
                      "named runtime behaviour outside the model); no -k",
                      "constructs of the checked tree, detected by behaviour (wait-for-room, worker tests the command "
-                     "timeout itself): %s; the theorems hold for every combination" % (variant,)],
+                     "timeout itself, dsh() stops the watchdog before returning): %s; the theorems hold for every "
+                     "combination" % (variant,)],
         trusted_base=["Lean 4.33 kernel", "axioms: propext, Classical.choice, Quot.sound at most (audited per theorem)",
                       "hand-written LTS Dsh/Timed.lean (over Dsh/Fan.lean) tied to dsh.c by trace acceptance",
                       "Gen/Dsh.lean regenerated from /repo (WDOG_POLL)",
@@ -224,13 +227,13 @@ def explore(ctx, exe_san, exe, variant, cov, dist):
 
     def consume(results):
         fan = [r for r in results if r["case"]["yield"] == "fan" and r["crash"] is None and not r["bug"]]
-        batches = [T.project(r, variant[0], variant[1]) for r in fan]
+        batches = [T.project(r, *variant) for r in fan]
         verdicts = T.accept_all(ctx, batches) if batches else []
         for r, b, bad in zip(fan, batches, verdicts):
             if bad is not None:
                 dist["rejects"] += 1
                 if dist["rejects"] <= 3:
-                    ctx.disagreement("Timed LTS (%s, selfcheck=%s) vs dsh.c" % variant,
+                    ctx.disagreement("Timed LTS (%s, selfcheck=%s, stopwdog=%s) vs dsh.c" % variant,
                                      "projected trace line %d `%s`: %s" % (bad[0], bad[1], bad[2]), T.pack(r))
             else:
                 dist["accepted"] += 1
